@@ -174,7 +174,9 @@ def oracles(spec: dict, inputs: list[dict], r: dict) -> list[dict]:
             elif arg == "short":
                 allowed |= {0, 1, 2}
                 any_short = True
-            elif k in ("open-r", "read", "stat") and _input_path(path, inp):
+            elif k == "stat" and _input_path(path, inp):
+                allowed |= {0, 1, 2}  # a one-shot stat error can be absorbed (click probes the path, exists() ignores ENOENT-class errors)
+            elif k in ("open-r", "read") and _input_path(path, inp):
                 allowed |= {1, 2}
                 if exp["exit"] != 0:
                     allowed.add(exp["exit"])
